@@ -10,7 +10,14 @@ Protocol (harness/drv_fbshape.cpp, lean/Drivers/C08Shape.lean):
     from MIN_ST) / run
     every `c` line answers  t=<time> cyc=<0|1> w=<producer delta|-> r=<reader delta|-> v=<reader value|invalid|->
     init {} = the declared initial delta is the canonical EMPTY delta; loop = self loop through a validity-gated body
-    (x : TS<Int> scripted, w = the body's delta); probe t = the reader recorder is also evaluated at t (validity)."""
+    (x : TS<Int> scripted, w = the body's delta); probe t = the reader recorder is also evaluated at t (validity).
+
+Stream fbshape-ref (lean/Drivers/C08Ref.lean, Model/FeedbackRef.lean, Props/C08Ref.lean): the feedback's producer port
+is a REF-SELECTED output - if_then_else(cond, A, B) (`sel`) or switch_(key, {pass-A, pass-B}, A, B) (`swc`) over two
+independently scripted collections A, B:
+    case <n> / shape <tss|tsd|tsb2|tsl2> sel|swc / c [s=a|s=b] [a=<writes>] [b=<writes>] | c - / run
+    every `c` line answers  t=.. cyc=.. w=<producer-PORT tick|-> r=<reader delta|-> v=<reader value|-> pv=<port value|->
+    w / pv are read through added()/removed()/modified_items()/modified() per child, never delta_value() (finding C13-A)."""
 import itertools
 import os
 from vlib import Case, Stream, BUILD, model_cmd
@@ -582,18 +589,26 @@ def check_trace(case, out):
 
 
 def monitor(stream, case, out):
+    if stream == "fbshape-ref":
+        return ref_monitor(case, out)
     return check_trace(case, out)[0][:3]
 
 
 def features(stream, case, out):
+    if stream == "fbshape-ref":
+        return sorted(ref_check(case, out)[1])
     return sorted(check_trace(case, out)[1])
 
 
 def nontrivial(stream, case, out):
+    if stream == "fbshape-ref":
+        return "reader-ticked>=2" in ref_check(case, out)[1]
     return "reader-ticked>=2" in check_trace(case, out)[1]
 
 
 def valid_case(stream, case, impl_out, model_out):
+    if stream == "fbshape-ref":
+        return ref_parse(case) is not None and not any("bad-op" in l for l in impl_out)
     return parse_case(case) is not None and not any("bad-op" in l for l in impl_out)
 
 
@@ -834,6 +849,428 @@ def exhaustive_small(start_idx):
     return cases
 
 
+
+# ============================================================================= REF-selected producer port (fbshape-ref)
+
+REF_SHAPES = {"tss": ("set", 0), "tsd": ("dict", 0), "tsb2": ("fix", 2), "tsl2": ("fix", 2)}
+KNOWN_CLASSES = ("[C08-ref-A]", "[C08-ref-B]")
+
+
+def sink_policy():
+    """which rule the source under test has in evaluate_feedback_sink: `difference` once the link-aware capture of fix
+    fixes/c08_ref_feedback.patch is in (its helper is named observed_delta_is_link_aware), else `asbuilt`"""
+    try:
+        from vlib import REPO
+        src = open(os.path.join(REPO, "src", "hgraph", "runtime", "feedback_node.cpp")).read()
+    except Exception:
+        return "asbuilt"
+    return "difference" if "observed_delta_is_link_aware" in src else "asbuilt"
+
+
+def ref_parse(case):
+    """-> dict(shape, kind, npos, mode, script=[(line_index, sel|None, a|None, b|None)], run_index) or None"""
+    if len(case.lines) < 4:
+        return None
+    w = case.lines[1].split()
+    if len(w) != 3 or w[0] != "shape" or w[1] not in REF_SHAPES or w[2] not in ("sel", "swc"):
+        return None
+    kind, npos = REF_SHAPES[w[1]]
+    if w[2] == "swc" and kind == "fix":
+        return None
+    script = []
+    for li, ln in enumerate(case.lines[2:-1], start=2):
+        t = ln.split()
+        if len(t) < 2 or len(t) > 4 or t[0] != "c":
+            return None
+        sel, a, b, stage = None, None, None, 0
+        if t[1:] != ["-"]:
+            for tok in t[1:]:
+                if tok in ("s=a", "s=b"):
+                    if stage >= 1:
+                        return None
+                    stage, sel = 1, tok == "s=a"
+                elif tok[:2] in ("a=", "b=") and len(tok) > 2:
+                    st = 2 if tok[0] == "a" else 3
+                    if stage >= st:
+                        return None
+                    stage = st
+                    ws = parse_writes(tok[2:])
+                    if ws is None:
+                        return None
+                    if kind == "fix" and (ws[1] or any(q >= npos for q in ws[0])):
+                        return None
+                    if tok[0] == "a":
+                        a = ws
+                    else:
+                        b = ws
+                else:
+                    return None
+        script.append((li, sel, a, b))
+    if case.lines[-1].strip() != "run" or not script:
+        return None
+    return dict(shape=w[1], kind=kind, npos=npos, mode=w[2], script=script, run_index=len(case.lines) - 1)
+
+
+def ref_out_line(line, kind):
+    f = line.split(" ")
+    if len(f) != 6 or not (f[0].startswith("t=") and f[1].startswith("cyc=") and f[2].startswith("w=") and f[3].startswith("r=")
+                           and f[4].startswith("v=") and f[5].startswith("pv=")):
+        raise ValueError(line)
+    pb = lambda x: "invalid" if x == "invalid" else parse_braces(x)
+    return int(f[0][2:]), f[1][4:] == "1", pb(f[2][2:]), pb(f[3][2:]), pb(f[4][2:]), pb(f[5][3:])
+
+
+def ref_check(case, out):
+    """The property on ONE implementation trace of the REF-selected-producer stream, from the recorders alone:
+       the reader's tick at t+1 is the producer PORT's tick at t (nothing lost - removals included -, nothing invented,
+       nothing in the cycle of the write), the reader's value at t+1 is the port's value at t, and is the fold of what
+       was delivered.  The script is used only to classify a cycle (flip? new target written? port ever invalidated?)."""
+    bad, feats = [], set()
+    p = ref_parse(case)
+    if p is None:
+        return bad, feats
+    kind, npos = p["kind"], p["npos"]
+    feats.add("ref:shape=" + p["shape"])
+    feats.add("ref:mode=" + p["mode"])
+    if len(out) != len(case.lines):
+        return ["[lines] %d output lines for %d input lines" % (len(out), len(case.lines))], feats
+    res = out[p["run_index"]]
+    if not res.startswith("ok"):
+        return ["[run] the run failed: %s" % res[:60]], feats
+    if res != "ok extra=0":
+        bad.append("[quiescence] engine cycles at times outside the scripted range: %s" % res)
+    reader = Acc(kind)            # fold of everything the PORT ticked with up to the previous cycle
+    pending, pend_pv, pend_class = None, None, None
+    # script-side classification only (which positions of A / B are valid, what is selected)
+    tv = {True: set(), False: set()}
+    tvalid = {True: False, False: False}
+    cond, port_valid_seen, value_comparable = None, False, True
+    n_ticks, n_flips, known_seen = 0, 0, False
+    last = len(p["script"]) - 1
+    for k, (li, sel, a, b) in enumerate(p["script"]):
+        t = 1 + k
+        try:
+            ot, cyc, w, r, v, pv = ref_out_line(out[li], kind)
+        except Exception:
+            return bad + ["[lines] unreadable cycle line %r" % out[li][:80]], feats
+        if ot != t:
+            bad.append("[lines] cycle line %d reports time %d, expected %d" % (k, ot, t))
+        # ---- the reader side: exactly what the port ticked with one smallest step earlier
+        if pending is None:
+            exp_r = None
+        else:
+            exp_r = reader.mutate(pending[0], pending[1], True)
+            if exp_r is None:
+                feats.add("ref:empty-port-tick-delivered-without-reader-tick")
+        exp_v = reader.value() if exp_r is not None else None
+        mismatch = fmt(kind, r) != fmt(kind, exp_r)
+        if mismatch:
+            rm, rr = r if r is not None else ({}, set())
+            em, er = exp_r if exp_r is not None else ({}, set())
+            tag = pend_class if pend_class else None
+            if exp_r is None and w is not None and fmt(kind, r) == fmt(kind, w):
+                bad.append("[same-cycle] the reader saw a delta in the cycle that wrote it: t=%d %s" % (t, fmt(kind, r)))
+            elif exp_r is None and pending is None:
+                bad.append("[untimely] the reader ticked although the producer port did not tick one step earlier: t=%d saw %s" % (t, fmt(kind, r)))
+            else:
+                missing = sorted(set(em) - set(rm)) + sorted(er - rr)
+                extra = sorted(set(rm) - set(em)) + sorted(rr - er)
+                what = ("position(s) %s of the port's tick did not arrive" % missing if missing else
+                        "position(s) %s nobody wrote ticked" % extra if extra else "values differ")
+                bad.append("%s the reader's tick is not the producer port's tick of one step earlier: t=%d the reader saw %s, the port "
+                           "(REF-selected: %s) ticked at t=%d with %s - %s"
+                           % (tag or ("[lost]" if missing else "[spurious]" if extra else "[value]"), t, fmt(kind, r), p["mode"], t - 1,
+                              fmt(kind, exp_r), what))
+            if tag:
+                known_seen = True
+            # go on from what the reader really holds (so that one loss is reported once, not in every later cycle)
+            if r is not None and v not in (None, "invalid"):
+                reader.items, reader.valid = dict(v[0]), True
+        elif r is not None:
+            n_ticks += 1
+            if fmt_val(kind, v) != fmt_val(kind, exp_v):
+                bad.append("[accumulated] the reader's value is not the fold of the delivered ticks: t=%d value %s, fold %s"
+                           % (t, fmt_val(kind, v), fmt_val(kind, exp_v)))
+            elif value_comparable and not known_seen and pend_pv is not None and fmt_val(kind, v) != fmt_val(kind, pend_pv):
+                bad.append("[stale] the reader's value at t=%d is %s but the producer port's value at t=%d was %s"
+                           % (t, fmt_val(kind, v), t - 1, fmt_val(kind, pend_pv)))
+        # ---- script-side classification of this cycle
+        for tgt, ws in ((True, a), (False, b)):
+            if ws is not None:
+                tvalid[tgt] = True
+                if kind == "fix":
+                    tv[tgt] |= set(ws[0])
+        flipped = sel is not None and cond != sel
+        old_cond = cond
+        if flipped:
+            cond = sel
+        elif sel is not None:
+            feats.add("ref:cond-tick-same-value(dedup)")
+        new_written = cond is not None and (a if cond else b) is not None
+        cls = None
+        if flipped:
+            n_flips += 1
+            nv = tvalid[cond]
+            ov = old_cond is not None and tvalid[old_cond] and port_valid_seen
+            if not nv:
+                feats.add("ref:flip-onto-not-valid-target")
+                if port_valid_seen:
+                    value_comparable = False       # the port lost its value: no delta can say so (documented)
+                    feats.add("ref:port-invalidated(value-clause-off)")
+            elif not ov:
+                feats.add("ref:first-valid-selection" + ("(only-one-target-valid)" if not (tvalid[True] and tvalid[False]) else ""))
+            else:
+                feats.add("ref:flip-valid-to-valid" + ("+new-target-ticks" if new_written else "(new-target-silent)"))
+                if (b if cond else a) is not None:
+                    feats.add("ref:flip+old-target-ticks")
+                if kind == "fix" and not tv[cond] >= tv[old_cond]:
+                    value_comparable = False       # the new target has fewer valid children: the reader keeps the others
+                    feats.add("ref:fix-flip-onto-fewer-valid-children(value-clause-off)")
+                if kind != "fix" and new_written:
+                    cls = "[C08-ref-A]"
+                if p["shape"] == "tsb2":
+                    cls = "[C08-ref-B]"
+            if k and p["script"][k - 1][1] is not None:
+                feats.add("ref:cond-ticks-in-consecutive-cycles")
+        if w is not None:
+            port_valid_seen = True
+            if flipped and kind != "fix" and old_cond is not None:
+                feats.add("ref:flip-delta:" + ("+".join(x for x, on in (("adds", bool(w[0]) and kind == "set"), ("mods", bool(w[0]) and kind == "dict"),
+                                                                         ("removals", bool(w[1]))) if on) or "empty"))
+            if k == last:
+                feats.add("ref:port-tick-in-last-cycle(undelivered)")
+        # ---- quiescence: a cycle runs only when the script does something or a delivery is due
+        exp_cyc = (sel is not None or a is not None or b is not None) or pending is not None
+        if cyc != exp_cyc:
+            if cyc:
+                bad.append("[quiescence] the engine ran a cycle although nothing is due: t=%d" % t)
+            elif exp_r is not None:
+                bad.append("[lost] a port tick was not delivered one step later: no engine cycle at t=%d although a delivery is due" % t)
+        if (w is None) != (pv is None):
+            bad.append("[lines] w / pv disagree at t=%d" % t)
+        pending = w if w is not None else None
+        pend_pv = pv if w is not None else None
+        pend_class = cls if w is not None else None
+    feats.add("ref:flips=%s" % (n_flips if n_flips < 4 else "4+"))
+    if n_ticks >= 2:
+        feats.add("reader-ticked>=2")
+    return bad, feats
+
+
+def ref_monitor(case, out):
+    bad = ref_check(case, out)[0]
+    # a failure of a listed class must not hide a different failure on the same input
+    other = [m for m in bad if not m.startswith(KNOWN_CLASSES)]
+    return (other or bad)[:3]
+
+
+def gen_ref_case(rng, idx):
+    shape = rng.choice(["tss"] * 5 + ["tsd"] * 5 + ["tsl2"] * 2 + ["tsb2"])
+    kind, npos = REF_SHAPES[shape]
+    mode = "swc" if kind != "fix" and rng.random() < 0.25 else "sel"
+    prof = rng.choice(["clean"] * 6 + ["coincide"] * 2 + ["any"] * 2)
+    n = rng.choice([4, 5, 6, 6, 7, 8, 8, 9, 10, 12])
+    counter = [10]
+
+    def val():
+        counter[0] += 1
+        return counter[0] if rng.random() < 0.7 else rng.randrange(0, 4)
+
+    # contents the two targets start with: B relative to A is a superset / subset / disjoint / overlapping / equal
+    rel = rng.choice(["superset", "subset", "disjoint", "overlap", "overlap", "equal", "random"])
+    univ = list(range(6))
+    if kind == "fix":
+        ca = set(range(npos)) if rng.random() < 0.8 else {rng.randrange(npos)}
+        cb = set(range(npos)) if rng.random() < 0.8 else {rng.randrange(npos)}
+    else:
+        ca = set(rng.sample(univ, rng.randrange(1, 4)))
+        rest = [q for q in univ if q not in ca]
+        if rel == "superset":
+            cb = ca | set(rng.sample(rest, rng.randrange(1, 3)))
+        elif rel == "subset":
+            cb = set(rng.sample(sorted(ca), rng.randrange(0, len(ca)))) if len(ca) > 1 or rng.random() < 0.5 else set(ca)
+        elif rel == "disjoint":
+            cb = set(rng.sample(rest, rng.randrange(1, 3)))
+        elif rel == "overlap":
+            cb = set(rng.sample(sorted(ca), rng.randrange(1, len(ca) + 1))) | set(rng.sample(rest, rng.randrange(1, 3)))
+        elif rel == "equal":
+            cb = set(ca)
+        else:
+            cb = set(rng.sample(univ, rng.randrange(0, 4)))
+    cur = {True: {}, False: {}}       # what the script has put into A / B
+    valid = {True: False, False: False}
+
+    def writes(tgt, first):
+        """a write to target tgt -> text (and the script's own view of the contents is updated)"""
+        mods, rems = {}, set()
+        c = cur[tgt]
+        if first:
+            want = ca if tgt else cb
+            if kind == "set":
+                mods = {q: 0 for q in want}
+                if not want:
+                    rems = {rng.randrange(6)}          # an empty but valid set: remove an absent element
+            else:
+                mods = {q: val() for q in want}
+                if not want:
+                    rems = {rng.randrange(6)}
+        elif kind == "fix":
+            for q in rng.sample(range(npos), rng.randrange(1, npos + 1)):
+                mods[q] = val()
+        else:
+            for q in rng.sample(univ, rng.choice([1, 1, 2, 2, 3])):
+                present = q in c
+                x = rng.random()
+                if kind == "set":
+                    if present != (x < 0.1):
+                        rems.add(q)
+                    else:
+                        mods[q] = 0
+                else:
+                    if (present and x < 0.45) or (not present and x < 0.08):
+                        rems.add(q)
+                    else:
+                        mods[q] = val()
+        for q in rems:
+            c.pop(q, None)
+        c.update(mods)
+        valid[tgt] = True
+        return w2s("set" if kind == "set" else "dict", mods, rems)
+
+    start = rng.choice(["both-then-select", "both-then-select", "select-first", "one-valid", "all-at-once", "late-b"])
+    lines, cond = [], None
+    for k in range(n):
+        sel, wa, wb = None, False, False
+        if k == 0:
+            if start == "both-then-select":
+                wa, wb = True, True
+            elif start == "select-first":
+                sel = rng.random() < 0.5
+            elif start in ("one-valid", "late-b"):
+                wa, sel = True, (True if start == "late-b" or rng.random() < 0.6 else False)
+            else:
+                wa, wb, sel = True, True, rng.random() < 0.5
+        elif k == 1 and start == "both-then-select":
+            sel = rng.random() < 0.5
+        elif k == 1 and start == "select-first":
+            wa, wb = rng.random() < 0.8, rng.random() < 0.8
+            if not (wa or wb):
+                wa = True
+        else:
+            x = rng.random()
+            if x < 0.12:
+                pass                                   # idle step
+            elif x < 0.50:
+                sel = (not cond) if (cond is not None and rng.random() < 0.85) else (rng.random() < 0.5)
+                y = rng.random()
+                if y < 0.25:
+                    wa = rng.random() < 0.5
+                    wb = not wa
+                elif y < 0.32:
+                    wa = wb = True
+            else:
+                y = rng.random()
+                wa, wb = y < 0.55, y >= 0.45
+        if not valid[False] and start in ("one-valid", "late-b") and k >= 2 and rng.random() < 0.5:
+            wb = True
+        flipped = sel is not None and sel != cond
+        newc = sel if flipped else cond
+        if flipped and cond is not None and valid[newc] and valid[cond]:
+            new_w = wa if newc else wb
+            if prof == "clean" and new_w:
+                if newc:
+                    wa = False
+                else:
+                    wb = False
+            elif prof == "coincide" and not new_w and rng.random() < 0.8:
+                if newc:
+                    wa = True
+                else:
+                    wb = True
+        if prof == "clean" and flipped and not valid[newc] and not (wa if newc else wb) and (valid[True] or valid[False]) and cond is not None:
+            sel, flipped, newc = None, False, cond       # keep the port valid once it is
+        parts = []
+        if sel is not None:
+            parts.append("s=a" if sel else "s=b")
+        if wa:
+            parts.append("a=" + writes(True, not valid[True]))
+        if wb:
+            parts.append("b=" + writes(False, not valid[False]))
+        cond = newc
+        lines.append("c " + (" ".join(parts) if parts else "-"))
+    if rng.random() < 0.7:
+        lines.append("c -")
+    return Case(["case %d" % idx, "shape %s %s" % (shape, mode)] + lines + ["run"], {"profile": prof, "rel": rel, "start": start})
+
+
+def ref_directed(start_idx):
+    """named histories: flips onto a superset / subset / disjoint / overlapping / equal target, new target silent or ticking,
+    old target ticking, flip back, consecutive flips, first selection with one valid target, selection before validity"""
+    H = {
+        "tss": dict(A="+1,+2", sup="+1,+2,+3", sub="+2", dis="+4,+5", ovl="+2,+3", eq="+1,+2", wa="+6", wb="+7,-2", ra="-1"),
+        "tsd": dict(A="1=10,2=20", sup="1=11,2=21,3=31", sub="2=22", dis="4=40,5=50", ovl="2=23,3=33", eq="1=10,2=20", wa="6=60", wb="7=70,-2",
+                    ra="-1"),
+        "tsl2": dict(A="0=1,1=2", sup="0=10,1=20", sub="0=10", dis="1=20", ovl="0=10,1=20", eq="0=1,1=2", wa="0=3", wb="1=21", ra="1=4"),
+        "tsb2": dict(A="0=1,1=2", sup="0=10,1=20", sub="0=10", dis="1=20", ovl="0=10,1=20", eq="0=1,1=2", wa="0=3", wb="1=21", ra="1=4"),
+    }
+    cases, idx = [], start_idx
+    for shape, h in H.items():
+        for mode in (("sel", "swc") if shape in ("tss", "tsd") else ("sel",)):
+            for rel in ("sup", "sub", "dis", "ovl", "eq"):
+                B = h[rel]
+                hists = [
+                    ["s=a a=%s b=%s" % (h["A"], B), "-", "s=b", "-", "s=a", "-"],                       # flip, flip back (targets silent)
+                    ["s=a a=%s b=%s" % (h["A"], B), "s=b", "s=a", "s=b", "-"],                           # consecutive flips
+                    ["a=%s b=%s" % (h["A"], B), "s=a", "a=%s" % h["wa"], "s=b a=%s" % h["ra"], "b=%s" % h["wb"], "-"],   # old target ticks in the flip cycle
+                    ["s=a a=%s b=%s" % (h["A"], B), "-", "s=b b=%s" % h["wb"], "-", "s=a a=%s" % h["wa"], "-"],          # new target ticks in the flip cycle
+                ]
+                for scr in hists:
+                    cases.append(Case(["case %d" % idx, "shape %s %s" % (shape, mode)] + ["c " + x for x in scr] + ["run"])); idx += 1
+            for scr in (["s=a", "b=%s" % h["ovl"], "a=%s" % h["A"], "a=%s" % h["wa"], "s=b", "-"],      # selected before anything is valid
+                        ["s=b a=%s" % h["A"], "-", "s=a", "b=%s" % h["ovl"], "s=b", "-"],               # only the OTHER target is valid at first
+                        ["s=a a=%s" % h["A"], "s=a", "s=a a=%s" % h["wa"], "-"]):                      # cond re-ticks with the value it has
+                cases.append(Case(["case %d" % idx, "shape %s %s" % (shape, mode)] + ["c " + x for x in scr] + ["run"])); idx += 1
+    return cases
+
+
+def ref_exhaustive(start_idx):
+    """every 4-cycle history over {idle, flip, write A, write B, flip + write A, flip + write B} after a common start,
+    TSS and TSD, if_then_else"""
+    cases, idx = [], start_idx
+    for shape, A, B, wa, wb in (("tss", "+1,+2", "+2,+3", ["+4", "-1"], ["+5", "-2"]), ("tsd", "1=10,2=20", "2=21,3=31", ["4=40", "-1"], ["5=50", "-2"])):
+        for hist in itertools.product(range(6), repeat=4):
+            if not any(h in (1, 4, 5) for h in hist):
+                continue
+            cond, na, nb, lines = True, 0, 0, []
+            for h in hist:
+                parts = []
+                if h in (1, 4, 5):
+                    cond = not cond
+                    parts.append("s=a" if cond else "s=b")
+                if h in (2, 4):
+                    parts.append("a=" + wa[na % 2]); na += 1
+                if h in (3, 5):
+                    parts.append("b=" + wb[nb % 2]); nb += 1
+                lines.append("c " + (" ".join(parts) if parts else "-"))
+            cases.append(Case(["case %d" % idx, "shape %s sel" % shape, "c s=a a=%s b=%s" % (A, B), "c -"] + lines + ["c -", "run"])); idx += 1
+    return cases
+
+
+def ref_stream(rng, tier):
+    n = 420 if tier == "quick" else 12000
+    cases = [gen_ref_case(rng, 50000 + i) for i in range(n)]
+    cases += ref_directed(50000 + n)
+    if tier != "quick":
+        cases += ref_exhaustive(80000)
+    cdir = os.path.join(os.path.dirname(os.path.dirname(os.path.dirname(os.path.abspath(__file__)))), "corpus", "C08")
+    corpus = []
+    if os.path.isdir(cdir):
+        for f in sorted(os.listdir(cdir)):
+            if f.startswith("fbref"):
+                corpus.append(Case([l.rstrip("\n") for l in open(os.path.join(cdir, f)) if l.strip()]))
+    return Stream("fbshape-ref", FB, model_cmd("C08Ref") + [sink_policy()], corpus + cases, timeout=900)
+
+
 def streams(rng, tier, seed):
     n = 900 if tier == "quick" else 24000
     cases = [gen_case(rng, i) for i in range(n)]
@@ -846,4 +1283,7 @@ def streams(rng, tier, seed):
         for f in sorted(os.listdir(cdir)):
             if f.startswith("fbshape"):
                 corpus.append(Case([l.rstrip("\n") for l in open(os.path.join(cdir, f)) if l.strip()]))
-    return [Stream("fbshape-delta", FB, model_cmd("C08Shape"), corpus + cases, timeout=900)]
+    # the REF-selected-producer stream draws from its own generator state so that the cases of fbshape-delta stay what they were
+    import random
+    ref = ref_stream(random.Random(rng.getrandbits(32) ^ 0xC08), tier)
+    return [Stream("fbshape-delta", FB, model_cmd("C08Shape"), corpus + cases, timeout=900), ref]
